@@ -198,14 +198,20 @@ def env_writer_write(ex, args, how):
     w = ex.load(args[0])
     allow_fail = w.state.get('faults', True) if isinstance(w.state, dict) else True
     budget = getattr(ex, 'fault_budget', None)
-    if allow_fail and (budget is None or ex.out.get('faults_used', 0) < budget):
+    script = getattr(ex, 'fault_script', None)
+    if script is not None:
+        k = ex.out.get('attempt_no', 0)
+        ex.out['attempt_no'] = k + 1
+        failed = bool(script[k]) if k < len(script) else False
+    elif allow_fail and (budget is None or ex.out.get('faults_used', 0) < budget):
         fail = ex.fresh('wfail', 'bool')
         failed = ex.choose([z3.Not(fail), fail]) == 1
     else:
         failed = False
     if failed:
         ex.out['faults_used'] = ex.out.get('faults_used', 0) + 1
-        e = io_error(ex, 'write-attempt-%d' % len([x for x in ex.events if x[0] == 'wire']))
+        e = io_error(ex, 'write-attempt-%d' % len([x for x in ex.events if x[0] == 'wire']),
+                     z3.BitVecVal(EK_OTHER, 8) if script is not None else None)
         ex.events.append(('wire', snap, total, 'err', e, how))
         return err(e)
     ex.events.append(('wire', snap, total, 'ok', None, how))
